@@ -347,6 +347,7 @@ def check(case, ctx):
     kinds_seen = set()
     rej_classes = []
     hist = []
+    inserted = []       # (array passed to ds[k] = array, snapshot right after the insertion, step)
     for si, st in enumerate(steps):
         op = st["op"]
         kinds_seen.add(op)
@@ -392,6 +393,7 @@ def check(case, ctx):
             if exc is not None:
                 ctx.v(ID, "set-raised:" + type(exc).__name__, "ds[%r] = array(dims=%r labels=%s) raised %s: %s; %s" % (key, src.dims, codec.short(src.labels, 100), type(exc).__name__, str(exc)[:120], where))
                 return ('set-raised',)
+            inserted.append((arr, monitors.snapshot(arr), si))
             old = mo.vars.get(key)
             for d, l in zip(src.dims, src.labels):
                 if d not in mo.axes:
@@ -486,8 +488,9 @@ def check(case, ctx):
                 def fn():
                     setattr(ds, d, arrl if st["form"] == 'array' else list(labs))
             elif op == 'axes_setitem':
+                item = da.Axis(arrl, d) if st["form"] in ('dict', 'callable') else (arrl if st["form"] == 'array' else list(labs))
                 def fn():
-                    ds.axes[d] = da.Axis(arrl, d)
+                    ds.axes[d] = item
             else:
                 old = mo.axes[d]
                 if st["form"] == 'dict':
@@ -568,6 +571,14 @@ def check(case, ctx):
                 return ('append-raised',)
             mo.axes[st["name"]] = list(st["labels"])
             mo.direct.add(st["name"])
+        for arr_, snap_, sj in inserted:
+            monitors.COUNTS['imm_operand_checks'] += 1
+            now_ = monitors.snapshot(arr_)
+            if now_ != snap_:
+                ctx.v('C15', 'inserted-array-changed-by-dataset-edit:' + op,
+                      "the array passed to ds[k] = array at step %d was changed by a later in-place edit of the dataset (%s): %s" % (
+                          sj, where, monitors.describe_diff(snap_, now_)))
+                inserted = [x for x in inserted if x[0] is not arr_]
         if not observe_state(ctx, ds, mo, where):
             return ('diverged', op)
     n = len(steps)
